@@ -1,3 +1,322 @@
-import Cutadapt.Stats
+import Cutadapt.Proofs.OrderBest
+/-! # C09 — best-adapter choice, repeated rounds (`--times`) and linked adapters follow the rules
+
+Model: `bestMatch` (= `MultipleAdapters.match_to`, index-free), `rounds`/`matchAndTrim` (= `AdapterCutter.match_and_trim`),
+`Matchable.matchTo … (.linked …)` (= `LinkedAdapter.match_to`), `applyS … (.adapters …)` (= `AdapterCutter.__call__`).
+All theorems hold for every adapter list, every read and every option value. -/
 namespace Cutadapt.C09
+open Cutadapt Cutadapt.Adapters
+
+/-! ## Best-adapter choice -/
+
+/-- **The applied match is the arg-max**: the result of `MultipleAdapters.match_to` is the match of some adapter `k`
+    of the list, and every other adapter's match has a lower score, or the same score and more errors, or the same
+    score and errors and a later position. -/
+theorem best_is_argmax (ads : List Matchable) (s : Bytes) (m : AnyMatch) (h : bestMatch ads s = some m) :
+    ∃ k, (ads[k]?.bind (·.matchTo k s)) = some m ∧
+      ∀ (j : Nat) (a : Matchable) (m' : AnyMatch), ads[j]? = some a → a.matchTo j s = some m' →
+        (m'.score < m.score ∨ (m'.score = m.score ∧ m.errors < m'.errors) ∨
+         (m'.score = m.score ∧ m'.errors = m.errors ∧ k ≤ j)) :=
+  bestMatch_some_spec ads s m h
+
+/-- no match is reported iff no adapter matches -/
+theorem best_none_iff (ads : List Matchable) (s : Bytes) :
+    bestMatch ads s = none ↔ ∀ (j : Nat) (a : Matchable), ads[j]? = some a → a.matchTo j s = none :=
+  bestMatch_none_iff ads s
+
+/-- the winner is unique: two adapters cannot both satisfy the arg-max condition with different positions -/
+theorem best_position_unique (ads : List Matchable) (s : Bytes) (m : AnyMatch) (k k' : Nat)
+    (hk : (ads[k]?.bind (·.matchTo k s)) = some m) (hk' : (ads[k']?.bind (·.matchTo k' s)) = some m)
+    (hd : ∀ (j : Nat) (a : Matchable) (m' : AnyMatch), ads[j]? = some a → a.matchTo j s = some m' → Dominates m k m' j)
+    (hd' : ∀ (j : Nat) (a : Matchable) (m' : AnyMatch), ads[j]? = some a → a.matchTo j s = some m' → Dominates m k' m' j) :
+    k = k' := by
+  cases h1 : ads[k]? with
+  | none => simp [h1] at hk
+  | some a =>
+    cases h2 : ads[k']? with
+    | none => simp [h2] at hk'
+    | some a' =>
+      simp [h1] at hk; simp [h2] at hk'
+      have d1 := hd k' a' m h2 hk'
+      have d2 := hd' k a m h1 hk
+      unfold Dominates at d1 d2
+      omega
+
+/-! ## Rounds (`--times`) -/
+
+/-- **One adapter per round, each round on the already trimmed read, stop at the first round without a match or at
+    the limit.** With `r_0 = read`, `r_{i+1} = ms[i].trimmed r_i` (`readAfter read ms i = r_i`). -/
+theorem rounds_spec (ads : List Matchable) (t : Nat) (read tr : Read) (ms : List AnyMatch)
+    (h : rounds ads t read [] = (tr, ms)) :
+    ms.length ≤ t ∧
+    (∀ i (hi : i < ms.length), bestMatch ads (readAfter read ms i).seq = some ms[i]) ∧
+    (∀ i (hi : i < ms.length), readAfter read ms (i+1) = ms[i].trimmed (readAfter read ms i)) ∧
+    readAfter read ms 0 = read ∧
+    tr = readAfter read ms ms.length ∧
+    (ms.length < t → bestMatch ads tr.seq = none) := by
+  have := Cutadapt.rounds_spec ads t read
+  rw [h] at this
+  obtain ⟨h1, h2, h3, h4⟩ := this
+  exact ⟨h1, h2, fun i hi => readAfter_succ read ms i hi, readAfter_zero read ms, h3, h4⟩
+
+theorem action_beq (a b : Action) : (a == b) = decide (a = b) := by cases a <;> cases b <;> rfl
+
+/-- the read the cutter works on: upper-cased first under the `lowercase` action (that is what the code does) -/
+def inputOf (c : Cutter) (read : Read) : Read :=
+  if c.action == .lowercase then { read with seq := upperBytes read.seq } else read
+
+/-- the fast path `_match_and_trim_once_action_trim` agrees with the general loop -/
+theorem fast_path_is_one_round (c : Cutter) (read : Read) (h : (c.times == 1 && c.action == .trim) = true) :
+    matchAndTrim c read = .ok ((rounds c.adapters 1 read []).1, (rounds c.adapters 1 read []).2, read) := by
+  unfold matchAndTrim
+  rw [if_pos h]
+  cases hb : bestMatch c.adapters read.seq <;> simp [rounds, hb]
+
+/-- **Action `trim`**: the result is the read after all rounds -/
+theorem trim_result (c : Cutter) (read tr : Read) (ms : List AnyMatch) (ha : c.action = .trim)
+    (h : rounds c.adapters c.times read [] = (tr, ms)) :
+    matchAndTrim c read = .ok (tr, ms, read) := by
+  by_cases hf : (c.times == 1 && c.action == .trim) = true
+  · rw [fast_path_is_one_round c read hf]
+    have : c.times = 1 := by simp at hf; exact hf.1
+    rw [this] at h; rw [h]
+  · unfold matchAndTrim
+    rw [if_neg hf]
+    simp only [ha]
+    have e : (if (Action.trim == Action.lowercase) = true then { read with seq := upperBytes read.seq } else read) = read := by
+      simp [action_beq]
+    rw [e, h]
+    cases hl : ms.getLast? with
+    | none =>
+      have : ms = [] := by simpa using hl
+      subst this
+      have h1 := (rounds_spec _ _ _ _ _ h).2.2.2.2.1
+      simp only [readAfter, List.length_nil, List.take_nil, List.foldl_nil] at h1
+      rw [h1]
+    | some l => rfl
+
+/-- **Non-trim actions are applied once, to the original read, over all matches**: under `(rounds … = (tr, ms)) ∧ ms ≠ []`
+    the results of `mask`, `lowercase`, `retain`, `crop`, `none` are computed from the input read (upper-cased first for
+    `lowercase`) and the complete match list — not from the successively trimmed read `tr`. -/
+theorem nontrim_actions_once (c : Cutter) (read tr : Read) (ms : List AnyMatch)
+    (h : rounds c.adapters c.times (inputOf c read) [] = (tr, ms)) (hne : ms ≠ []) :
+    (c.action = .mask → matchAndTrim c read = .ok (maskedRead read ms, ms, read)) ∧
+    (c.action = .lowercase → matchAndTrim c read =
+        .ok (lowercasedRead (inputOf c read) ms, ms, inputOf c read) ∧ inputOf c read = { read with seq := upperBytes read.seq }) ∧
+    (c.action = .retain → matchAndTrim c read =
+        .ok (read.sub (ms.getLast hne).retainedAdapterInterval.1 (ms.getLast hne).retainedAdapterInterval.2, ms, read)) ∧
+    (c.action = .crop → matchAndTrim c read =
+        match ms.getLast hne with
+        | .single _ r => .ok (read.sub r.m.rstart r.m.rstop, ms, read)
+        | .linked _ _ _ => .error .attribute) ∧
+    (c.action = .none → matchAndTrim c read = .ok (read, ms, read)) := by
+  have hl : ms.getLast? = some (ms.getLast hne) := List.getLast?_eq_some_getLast hne
+  refine ⟨?_, ?_, ?_, ?_, ?_⟩ <;> intro ha <;>
+    (have hf : ¬ (c.times == 1 && c.action == .trim) = true := by simp [ha, action_beq]) <;>
+    unfold matchAndTrim <;> rw [if_neg hf] <;> simp only [inputOf, ha, action_beq] at h ⊢
+  · simp at h; simp [h, hl]
+  · simp at h; simp [h, hl]
+  · simp at h; simp [h, hl]
+  · simp at h; simp [h, hl]
+    cases ms.getLast hne <;> simp
+  · simp at h; simp [h, hl]
+
+/-- **No match: the read is untouched** (for `lowercase`: upper-cased — the code upper-cases before searching and
+    returns that object). Covers both the fast path and the general path. -/
+theorem no_match_untouched (c : Cutter) (read : Read)
+    (h : bestMatch c.adapters (inputOf c read).seq = none ∨ c.times = 0) :
+    matchAndTrim c read = .ok (inputOf c read, [], inputOf c read) := by
+  by_cases hf : (c.times == 1 && c.action == .trim) = true
+  · have ha : c.action = .trim := by simp [action_beq] at hf; exact hf.2
+    have ht : c.times = 1 := by simp at hf; exact hf.1
+    have hi : inputOf c read = read := by simp [inputOf, ha, action_beq]
+    rw [hi] at h ⊢
+    unfold matchAndTrim
+    rw [if_pos hf]
+    rcases h with h | h
+    · simp [h]
+    · omega
+  · unfold matchAndTrim
+    rw [if_neg hf]
+    have hr : rounds c.adapters c.times (inputOf c read) [] = (inputOf c read, []) := by
+      rcases h with h | h
+      · cases ht : c.times with
+        | zero => simp [rounds]
+        | succ t => simp [rounds, h]
+      · simp [h, rounds]
+    unfold inputOf at hr
+    simp only [hr]
+    simp [inputOf]
+
+/-- the converse: an empty match list means nothing matched in the first round (or `--times 0`) -/
+theorem no_matches_iff (ads : List Matchable) (t : Nat) (read : Read) :
+    (rounds ads t read []).2 = [] ↔ (bestMatch ads read.seq = none ∨ t = 0) := by
+  cases t with
+  | zero => simp [rounds]
+  | succ t =>
+    rw [rounds_succ]
+    cases bestMatch ads read.seq <;> simp
+
+/-! ## Linked adapters -/
+
+/-- what remains of `s` after the front match (`sequence[front_match.trim_slice()]`) -/
+def remainderAfter (s : Bytes) (fm : Option SingleMatch) : Bytes :=
+  match fm with
+  | some m => if m.before then s.drop m.rstop else s.take m.rstart
+  | none => s
+
+/-- the front adapter's match on `s` -/
+def frontMatch (f : Adapter) (s : Bytes) : Option SingleMatch := Adapters.matchTo f s
+/-- the back adapter's match: searched in what remains after the front match (in `s` itself when the front adapter did not match) -/
+def backMatch (f b : Adapter) (s : Bytes) : Option SingleMatch := Adapters.matchTo b (remainderAfter s (frontMatch f s))
+
+/-- `LinkedAdapter.match_to` in terms of the two searches -/
+theorem linked_matchTo_eq (idx : Nat) (f b : Adapter) (fr br : Bool) (name : String) (s : Bytes) :
+    Matchable.matchTo idx (.linked f b fr br name) s =
+      if (fr && (frontMatch f s).isNone) = true then none
+      else if ((backMatch f b s).isNone && (br || (frontMatch f s).isNone)) = true then none
+      else some (.linked idx ((frontMatch f s).map (⟨·, s⟩)) ((backMatch f b s).map (⟨·, remainderAfter s (frontMatch f s)⟩))) := by
+  rw [Matchable.matchTo]
+  unfold backMatch frontMatch remainderAfter
+  generalize Adapters.matchTo f s = fm
+  cases fm <;> rfl
+
+/-- **(1)** a linked adapter reports no match iff a required part is missing (or nothing matched at all) -/
+theorem linked_none_iff (idx : Nat) (f b : Adapter) (fr br : Bool) (name : String) (s : Bytes) :
+    Matchable.matchTo idx (.linked f b fr br name) s = none ↔
+      ((fr = true ∧ frontMatch f s = none) ∨ (backMatch f b s = none ∧ (br = true ∨ frontMatch f s = none))) := by
+  rw [linked_matchTo_eq]
+  cases frontMatch f s <;> cases backMatch f b s <;> cases fr <;> cases br <;> simp
+
+/-- **(2)** a returned match consists of exactly the front match on `s` (if the front adapter matched) and the back match on
+    the remainder (if the back adapter matched there) -/
+theorem linked_back_searched_in_remainder (idx : Nat) (f b : Adapter) (fr br : Bool) (name : String) (s : Bytes) (m : AnyMatch)
+    (h : Matchable.matchTo idx (.linked f b fr br name) s = some m) :
+    m = .linked idx ((frontMatch f s).map (⟨·, s⟩)) ((backMatch f b s).map (⟨·, remainderAfter s (frontMatch f s)⟩)) := by
+  rw [linked_matchTo_eq] at h
+  split at h
+  · cases h
+  · split at h
+    · cases h
+    · injection h with h; exact h.symm
+
+/-- a 5' front adapter removes everything up to the end of its match: the back adapter is searched in `s.drop rstop` -/
+theorem linked_remainder_front5 (f : Adapter) (s : Bytes) (fm : SingleMatch) (h : frontMatch f s = some fm)
+    (hty : f.ty = .front ∨ f.ty = .rightmostFront ∨ f.ty = .nonInternalFront ∨ f.ty = .prefix) :
+    remainderAfter s (frontMatch f s) = s.drop fm.rstop := by
+  unfold frontMatch Adapters.matchTo at h
+  rw [show frontMatch f s = some fm from by unfold frontMatch Adapters.matchTo; exact h]
+  cases ha : alignment f s with
+  | none => simp [ha] at h
+  | some t =>
+    obtain ⟨as, ae, rs, re, sc, er⟩ := t
+    simp [ha] at h
+    subst h
+    rcases hty with e | e | e | e <;> simp [remainderAfter, removesBefore, e]
+
+/-- the front part is present iff the front adapter matched on `s`, the back part iff the back adapter matched on the remainder -/
+theorem linked_parts_iff (idx : Nat) (f b : Adapter) (fr br : Bool) (name : String) (s : Bytes) (a : Nat) (fp bp : Option MatchRec)
+    (h : Matchable.matchTo idx (.linked f b fr br name) s = some (.linked a fp bp)) :
+    a = idx ∧ (fp.isSome ↔ (frontMatch f s).isSome) ∧ (bp.isSome ↔ (backMatch f b s).isSome) ∧
+    (fr = true → fp.isSome) ∧ (br = true → bp.isSome) ∧ (fp.isSome ∨ bp.isSome) := by
+  have h2 := linked_back_searched_in_remainder idx f b fr br name s _ h
+  have hn : ¬ (Matchable.matchTo idx (.linked f b fr br name) s = none) := by rw [h]; simp
+  rw [linked_none_iff] at hn
+  injection h2 with e1 e2 e3
+  subst e1 e2 e3
+  refine ⟨rfl, by simp, by simp, ?_, ?_, ?_⟩
+  · intro hfr
+    cases hf : frontMatch f s with
+    | none => exact absurd (Or.inl ⟨hfr, hf⟩) hn
+    | some _ => simp
+  · intro hbr
+    cases hb : backMatch f b s with
+    | none => exact absurd (Or.inr ⟨hb, Or.inl hbr⟩) hn
+    | some _ => simp
+  · cases hf : frontMatch f s with
+    | some _ => simp
+    | none =>
+      cases hb : backMatch f b s with
+      | some _ => simp
+      | none => exact absurd (Or.inr ⟨hb, Or.inr hf⟩) hn
+
+/-- a single (non-linked) adapter never produces a linked match and vice versa -/
+theorem linked_match_is_linked (idx : Nat) (f b : Adapter) (fr br : Bool) (name : String) (s : Bytes) (m : AnyMatch)
+    (h : Matchable.matchTo idx (.linked f b fr br name) s = some m) : ∃ fp bp, m = .linked idx fp bp :=
+  ⟨_, _, linked_back_searched_in_remainder idx f b fr br name s m h⟩
+
+/-- **(3)** when the linked adapter is the only adapter and a required part is missing, the read is completely untouched:
+    `matchAndTrim` returns it unchanged without matches … -/
+theorem linked_none_untouched (c : Cutter) (f b : Adapter) (fr br : Bool) (name : String) (read : Read)
+    (hc : c.adapters = [.linked f b fr br name])
+    (h : Matchable.matchTo 0 (.linked f b fr br name) (inputOf c read).seq = none) :
+    matchAndTrim c read = .ok (inputOf c read, [], inputOf c read) := by
+  apply no_match_untouched
+  left
+  rw [hc, bestMatch_singleton, h]
+
+/-- … hence `AdapterCutter.__call__` emits no `with_adapters`/`add_match` event and records no match: the read does not
+    count as trimmed -/
+theorem linked_none_not_counted (names : Names) (side : Nat) (c : Cutter) (first : Bool) (f b : Adapter) (fr br : Bool)
+    (name : String) (read : Read) (info : Info)
+    (hc : c.adapters = [.linked f b fr br name])
+    (h : Matchable.matchTo 0 (.linked f b fr br name) (inputOf c read).seq = none) :
+    ∃ info', applyS names side (.adapters c first) read info = .ok (inputOf c read, info', []) ∧ info'.mts = info.mts ∧
+      info'.isRc = info.isRc ∧ info'.cutPrefix = info.cutPrefix ∧ info'.cutSuffix = info.cutSuffix := by
+  have := linked_none_untouched c f b fr br name read hc h
+  simp only [applyS, this]
+  cases first <;> simp
+
+/-- **(4)** `with_adapters` is incremented iff the cutter recorded at least one match for this read, once per read, followed by one
+    `add_match` per applied match -/
+theorem with_adapters_iff_match (names : Names) (side : Nat) (c : Cutter) (first : Bool) (r r' : Read) (i i' : Info)
+    (evs : List Event) (h : applyS names side (.adapters c first) r i = .ok (r', i', evs)) :
+    (Event.withAdapter side ∈ evs ↔ i'.mts ≠ i.mts) ∧
+    ∃ ms, i'.mts = i.mts ++ ms ∧
+      evs = (if ms = [] then [] else Event.withAdapter side :: ms.map (fun m => Event.matched side m false)) ∧
+      (∃ tr ra, matchAndTrim c r = .ok (tr, ms, ra) ∧ r' = tr) := by
+  simp only [applyS] at h
+  cases hm : matchAndTrim c r with
+  | error e => simp [hm] at h
+  | ok t =>
+    obtain ⟨tr, ms, ra⟩ := t
+    simp only [hm] at h
+    injection h with h
+    injection h with h1 h
+    injection h with h2 h3
+    subst h1 h2 h3
+    have hmem : ∀ (l : List AnyMatch), Event.withAdapter side ∉ l.map (fun m => Event.matched side m false) := by
+      intro l hc
+      simp at hc
+    refine ⟨?_, ms, by cases first <;> simp, ?_, tr, ra, rfl, rfl⟩
+    · cases ms with
+      | nil => cases first <;> simp
+      | cons m ms => cases first <;> simp
+    · cases ms <;> simp
+
+/-! ## Non-vacuity: concrete instances -/
+
+def exAd (ty : AdapterType) (seq : Bytes) : Adapter :=
+  { ty := ty, seq := seq, thr := fun L => L / 10, minOverlap := 3, readWildcards := false, adapterWildcards := false, indels := true }
+
+/-- two 3' adapters, the second matches with a higher score: it wins although it is given second -/
+example : (bestMatch [.single (exAd .back [65,65,65]), .single (exAd .back [67,67,67,67])] [71,71,67,67,67,67,65,65,65]).map
+    (fun m => (m.adapter, m.score, m.errors)) = some (1, 4, 0) := by decide +kernel
+/-- equal score and errors: the adapter given first wins -/
+example : (bestMatch [.single (exAd .back [67,67,67]), .single (exAd .back [65,65,65])] [71,71,67,67,67,71,65,65,65]).map
+    (fun m => (m.adapter, m.score, m.errors)) = some (0, 3, 0) := by decide +kernel
+/-- `--times 2`: the second round searches the already trimmed read (`GGCCCG`), `--times 3` stops after the round without match -/
+example : let r := rounds [.single (exAd .back [65,65,65]), .single (exAd .back [67,67,67])] 3 ⟨[], [71,71,67,67,67,71,65,65,65], none⟩ []
+    (r.1.seq, r.2.map (·.adapter), r.2.map (·.remainderInterval)) = ([71, 71], [0, 1], [(0, 6), (0, 2)]) := by decide +kernel
+/-- a linked adapter whose required 3' part is missing reports nothing (the read stays untouched) … -/
+example : Matchable.matchTo 0 (.linked (exAd .prefix [65,65,65]) (exAd .back [67,67,67]) true true "l") [65,65,65,71,71,71] = none := by
+  decide +kernel
+/-- … with an optional 3' part the 5' part alone is a match … -/
+example : (Matchable.matchTo 0 (.linked (exAd .prefix [65,65,65]) (exAd .back [67,67,67]) true false "l") [65,65,65,71,71,71]).map
+    (fun m => m.remainderInterval) = some (3, 6) := by decide +kernel
+/-- … and the 3' part is searched in what remains after the 5' part (`GGGCCCT`: found at 3..6 of the remainder) -/
+example : Matchable.matchTo 0 (.linked (exAd .prefix [65,65,65]) (exAd .back [67,67,67]) true true "l") [65,65,65,71,71,71,67,67,67,84] =
+    some (.linked 0 (some ⟨⟨0, 3, 0, 3, 3, 0, true⟩, [65,65,65,71,71,71,67,67,67,84]⟩)
+                    (some ⟨⟨0, 3, 3, 6, 3, 0, false⟩, [71,71,71,67,67,67,84]⟩)) := by decide +kernel
+
 end Cutadapt.C09
